@@ -288,11 +288,11 @@ Section Lines.
                        | Some _ => inl (err_rule first last (n_line part + off) ("duplicated " ++ field_name f ++ " key"))
                        | None =>
                            rule_loop plines lines off rest None
-                             (set_lines (set_sc f (part, new_yaml_node plines lines off part (n_col k + 2)) (set_lines s first last))
-                                        first (Nat.max last (y_last (new_yaml_node plines lines off part (n_col k + 2)))))
+                             (set_lines (set_sc f (part, new_yaml_node plines lines off part 1) (set_lines s first last))
+                                        first (Nat.max last (y_last (new_yaml_node plines lines off part 1))))
                        end)).
           { intros f _ _ _. destruct (get_sc f (set_lines s first last)) as [old|]; [exact Gp|].
-            assert (Hy : ynode_ok (new_yaml_node plines lines off part (n_col k + 2))) by (apply nyn_ok; [exact Hp|lia]).
+            assert (Hy : ynode_ok (new_yaml_node plines lines off part 1)) by (apply nyn_ok; [exact Hp|apply le_n]).
             apply Hfin; [intros ? X; discriminate| |].
             - apply slots_ok_lines. apply slots_ok_set_sc; [exact Hs1|exact Hp|exact Hy].
             - destruct Hy as (_ & Gl & _).
